@@ -15,9 +15,13 @@ CONSTANTS GConfigs,                         \* set of cfg records (compiled conf
           GFinds,                           \* find_key probes: subset of 0..3
           GEnc,                             \* BOOLEAN: encryption changes are inputs in every state; FALSE: only during key
                                             \*   distribution (items pending, or encryption on), where they are always inputs
-          GDepthOf(_)                       \* cfg -> maximal number of inputs per behaviour
-VARIABLE hist
-gvars == <<vars, hist>>
+          GDepthOf(_),                      \* cfg -> maximal number of inputs up to the first completed exchange
+          GSegs, GDepth2Of(_),              \* several exchanges on one connection: after each of the first GSegs completions
+                                            \*   (a step into phase "completed") at least GDepth2Of(cfg) further inputs are allowed, so that
+                                            \*   complete -> new request -> complete / fail / abort with another method is
+                                            \*   inside the bound; `last` in the view keeps these histories apart
+VARIABLES hist, left, nseg                  \* left: inputs still allowed; nseg: completions that extended the bound
+gvars == <<vars, hist, left, nseg>>
 GView == vars
 
 NoRequests == {}
@@ -27,7 +31,7 @@ AllProps == {"C32", "C33", "C34", "C35"}
 B(b) == IF b THEN 1 ELSE 0
 KindNo(k) == CASE k = "legacy" -> 0 [] k = "lesc" -> 1 [] OTHER -> 2
 GInit == \E c \in GConfigs :
-            InitWith(c) /\ hist = << <<"reset", B(c.oob), c.sync, KindNo(c.kind), c.in, c.out, B(c.mitm), B(c.bond)>> >>
+            InitWith(c) /\ left = GDepthOf(c) /\ nseg = 0 /\ hist = << <<"reset", B(c.oob), c.sync, KindNo(c.kind), c.in, c.out, B(c.mitm), B(c.bond)>> >>
 
 Do(op) == hist' = Append(hist, op)
 
@@ -42,7 +46,7 @@ AlgsFor(r) ==
             oobR \in {cfg.oob, FALSE} }
 
 GNext ==
-    /\ Len(hist) <= GDepthOf(cfg)
+    /\ left > 0
     /\ \/ \E r \in GReqsOf(cfg) : \E o \in {"response", "failed"}, a \in AlgsFor(r) :
              Req(RecOf(r), o, RAuth, a) /\ Do(<<"req", r[1], r[2], r[3], r[4], r[5], r[6]>>)
        \/ \E p \in GPdus, o \in Outs :
@@ -53,6 +57,9 @@ GNext ==
        \* distribute the link layer may switch encryption on / off between any two inputs (polls in particular)
        \/ \E b \in BOOLEAN : (GEnc \/ budget # {} \/ enc) /\ b # enc /\ Enc(b) /\ Do(<<"enc", B(b)>>)
        \/ \E w \in GFinds : Find(w, FALSE, "none", -1, FALSE) /\ Do(<<"find", w>>)
+    /\ IF phase' = "completed" /\ phase # "completed" /\ nseg < GSegs
+       THEN left' = (IF GDepth2Of(cfg) > left - 1 THEN GDepth2Of(cfg) ELSE left - 1) /\ nseg' = nseg + 1
+       ELSE left' = left - 1 /\ nseg' = nseg
 
 GSpec == GInit /\ [][GNext]_gvars
 
